@@ -1,6 +1,7 @@
 ------------------------------- MODULE MCExpr -------------------------------
-(* Model checking the shipped 3-value / 2-operator evaluator against the     *)
-(* reference on every enumerated token string (8-bit words).                 *)
+(* Model checking the shipped evaluator (value stack, stack of waiting       *)
+(* operators) against the reference on every enumerated token string (8-bit  *)
+(* words).                                                                   *)
 EXTENDS ExprCases
 
 VARIABLES ts, st
@@ -17,17 +18,16 @@ Agreement == Finished /\ st.dev = {} =>
                LET ref == RefEval(ts) IN
                ref.k = "any" \/ st.res.k = "any" \/ SameRes(st.res, ref)
 
-\* a fired deviation is never the harmless kind that still yields a crash-free wrong "reject"
-DevIsNamed == st.dev \subseteq {"ReduceWithoutLookahead"}
+\* no deviation is named any more (Expr.ReduceWithoutLookahead was repaired in the code)
+DevIsNamed == st.dev = {}
 
-\* the evaluator never holds more than 3 values / 2 operators per frame
-Bounded == \A i \in DOMAIN st.fr : Len(st.fr[i].vals) <= 3 /\ Len(st.fr[i].ops) <= 2
+\* the waiting operators of a frame are in order of strictly rising tightness, so a frame never holds more than one
+\* operator per level (6; the leading "+" of an operand sits below them) and one value more than operators
+Rising(ops) == \A i \in 1..Len(ops) - 1 : Level(ops[i]) > Level(ops[i + 1])
+Bounded == \A i \in DOMAIN st.fr : /\ Len(st.fr[i].ops) <= 7 /\ Len(st.fr[i].vals) <= Len(st.fr[i].ops) + 1
+                                   /\ Rising(st.fr[i].ops)
 
-\* expected to be VIOLATED: witnesses that the design defects are reachable
-NoPrematureReduce == ~("ReduceWithoutLookahead" \in st.dev /\ Finished /\ st.res.k = "val"
-                        /\ ~SameRes(st.res, RefEval(ts)))
-
-T1 == <<WFromNat(W, 7), WFromNat(W, 5), WFromNat(W, 3), WFromNat(W, 2), WFromNat(W, 11), WFromNat(W, 1)>>
-T2 == <<WFromNat(W, 1), WFromNat(W, 0), WFromNat(W, 2), WFromNat(W, 0), WFromNat(W, 3), WFromNat(W, 1)>>
+T1 == <<WFromNat(W, 7), WFromNat(W, 5), WFromNat(W, 3), WFromNat(W, 2), WFromNat(W, 11), WFromNat(W, 1), WFromNat(W, 6)>>
+T2 == <<WFromNat(W, 1), WFromNat(W, 0), WFromNat(W, 2), WFromNat(W, 0), WFromNat(W, 3), WFromNat(W, 1), WFromNat(W, 2)>>
 MCTuples == {T1, T2}
 =============================================================================
